@@ -495,10 +495,30 @@ func c14SchemaUnit(c *mon.Ctx, r *mon.Rng, per, combos int) {
 			c.Count("schema prefix has the meaning of S (Check, GetAST, 6 documents)", 1)
 		}
 
+		if k%3 == 0 {
+			c14CommentEnded(c, r, s0)
+		}
 		c14Negative(c, r, "schema", s0, info.cuts, combos/3)
 		if k == 0 && c.Unit < 4 {
 			c.Sample("schema text, ending class "+info.class, map[string]any{"text": s0 + "\n\nTYPE @x", "expected_len": len(s0)})
 		}
+	}
+}
+
+// c14CommentEnded: the schema's last token is a block comment on a line of its own. Whether the
+// comment belongs to S the statement does not say, so both ends are right: the end of the
+// comment and the end of the schema proper. Nothing of the foreign text that follows (after
+// blanks or a line break) may be counted.
+func c14CommentEnded(c *mon.Ctx, r *mon.Rng, s0 string) {
+	withComment := s0 + "\n" + mon.Pick(r, []string{"### c ###", "###\n a comment\n###", "### x y ###"})
+	trailer := mon.Pick(r, []string{" GET /cats\n  200 @cat", "\tfoo\nbar", "  \nTYPE @x", "\nfoo", " foo", "\r\n\r\nURL /a\n"})
+	text := withComment + trailer
+	got := c14Observed("schema", text)
+	c.Eval(1)
+	c.Count("schema ending in a block comment, then blanks / line break and foreign text", 1)
+	a, b := fmt.Sprintf("len=%d", len(withComment)), fmt.Sprintf("len=%d", len(s0))
+	if got != a && got != b {
+		c.Violate("len-comment", c14Case{"schema", text}, a+" or "+b, got, "Len of a schema whose last token is a block comment counts neither the end of the comment nor the end of the schema proper")
 	}
 }
 
@@ -667,6 +687,11 @@ func init() {
 				if err := json.Unmarshal(raw, &cs); err != nil {
 					return "bad replay: " + err.Error()
 				}
+				return c14Observed(cs.Kind, cs.Text)
+			},
+			"len-comment": func(raw json.RawMessage) string {
+				var cs c14Case
+				json.Unmarshal(raw, &cs)
 				return c14Observed(cs.Kind, cs.Text)
 			},
 			"prefix": c14ReplayPrefix,
